@@ -66,6 +66,10 @@ fn main() {
         "C15" => vh::props::c01::run_c15(&mut rep, thorough),
         "C12" => vh::props::c12::run(&mut rep, thorough, false),
         "C06" => vh::props::c06::run(&mut rep, thorough),
+        "C04" => vh::props::c04::run(&mut rep, thorough),
+        "C05" => vh::props::c05::run(&mut rep, thorough),
+        "C07" => vh::props::c07::run(&mut rep, thorough),
+        "C20" => vh::props::c20::run(&mut rep, thorough),
         "smoke" => {
             smoke();
             return;
